@@ -103,12 +103,12 @@ func BuildCase(name, scenario string, com Committee, seed int64) *Case {
 		k.SuppressHonestCandidatesP = 0.7
 		k.HidePrecommitP, k.DropBlocksP = 0.3, 0.5
 	case "hidden-lock":
-		k.Playbooks = []string{"stale", "replayqc", "honest", "forged"}
+		k.Playbooks = []string{"stale", "replayqc", "honest", "forged", "mismatch"}
 		k.HidePrecommitP, k.MuteLockedP, k.SuppressHonestCandidatesP = 0.7, 0.5, 0.4
 	case "commit-withheld":
 		// an honest leader's COMMIT reaches nobody but the leader itself, which commits alone (gossip suppressed); the others,
 		// locked on that value, then face Byzantine leaders that try to unlock them (forged / stale justifications, splits)
-		k.Playbooks = []string{"forged", "forged", "stale", "split", "withhold", "fakeqc"}
+		k.Playbooks = []string{"forged", "forged", "stale", "split", "withhold", "fakeqc", "mismatch", "mismatch"}
 		k.HideCommitP, k.DropBlocksP, k.HideSingle, k.NoByzCandidates = 1.0, 1.0, true, true
 		c.Cfg.Heights = 1 // a withheld commit means the others must decide the same value by themselves
 		c.Script = func(s *Sim, a *Omni) {
@@ -154,7 +154,7 @@ func BuildCase(name, scenario string, com Committee, seed int64) *Case {
 			}
 		}
 	case "replay":
-		k.Playbooks = []string{"replayqc", "stale", "honest"}
+		k.Playbooks = []string{"replayqc", "stale", "honest", "mismatch"}
 		k.DropP, k.DupP, k.HidePrecommitP, k.HideCommitP, k.DropBlocksP = 0.1, 0.2, 0.3, 0.3, 0.5
 		c.Script = func(s *Sim, a *Omni) {
 			for t := int64(300); t < 20000; t += 250 + s.Rng.Int63n(400) {
@@ -171,7 +171,7 @@ func BuildCase(name, scenario string, com Committee, seed int64) *Case {
 		k.DropP = []float64{0, 0.1, 0.3}[rng.Intn(3)]
 		k.DupP = 0.1
 		k.HidePrecommitP, k.HideCommitP, k.MuteLockedP, k.SuppressHonestCandidatesP, k.DropBlocksP = 0.2, 0.2, 0.2, 0.3, 0.3
-		k.Playbooks = []string{"honest", "split", "partial", "stale", "forged", "withhold", "wrongphase", "replayqc", "fakeqc"}
+		k.Playbooks = []string{"honest", "split", "partial", "stale", "forged", "withhold", "wrongphase", "replayqc", "fakeqc", "mismatch"}
 		c.Script = func(s *Sim, a *Omni) {
 			nb := s.Rng.Intn(4)
 			for j := 0; j < nb; j++ {
